@@ -98,8 +98,8 @@ Proof.
   destruct ((length (firstn (stop - start) q) =? 2) && forallb (Z.eqb 34) (firstn (stop - start) q));
     [cbn; split; [exact Hc|reflexivity]|].
   destruct (negb (existsb (Z.eqb 92) (firstn (stop - start) q))); [cbn; split; [exact Hc|reflexivity]|].
-  destruct (bytes_ascii (removelast (tl (firstn (stop - start) q)))) as [[|]|]; cbn; try exact I;
-    split; [exact Hc|reflexivity|exact Hc|reflexivity].
+  destruct (string_kind cfg (removelast (tl (firstn (stop - start) q)))) as [k0|]; cbn; try exact I.
+  split; [exact Hc|reflexivity].
 Qed.
 
 Lemma lex_decimal_cons : forall start pos rest,
